@@ -5,3 +5,4 @@ INVARIANT DeliveryImpliesClientAuth
 INVARIANT NoPlaintext
 INVARIANT DtlsRefusesUnverifiable
 CHECK_DEADLOCK FALSE
+INVARIANT NoSkewTolerance
